@@ -17,7 +17,8 @@ instantiated with `Gen.Wake.cfg`: the table "which method reaches `notify_all()`
 and the order of the tests in the two wait loops, re-extracted from src/stream.rs on every run.
 
 clause → theorem
-* the extracted facts are the ones the proofs need ................ `C12.source_facts`
+* the extracted facts are the ones the proofs need (notify table,
+  loop order, check-and-park in one critical section) ............. `C12.source_facts`
 * every branch that makes a wait condition true notifies
   (ack, cancel, advance, resume; for both waits; ALL states) ...... `C12.wake_obligation`
 * a parked waiter is woken by the very call that makes its
@@ -48,7 +49,8 @@ abbrev cfg : Cfg := Gen.Wake.cfg
 
 /-- The facts read off the current source: `record_ack`, `cancel`, `advance_to_file` and
 `request_resume` reach `notify_all()` under no more than the guards that coincide with their state
-change, and both wait loops test cancel, then the condition, then the deadline, then park. -/
+change, both wait loops test cancel, then the condition, then the deadline, then park, and both hold
+the mutex without a gap from those tests to `wait_timeout` (check-and-park is one critical section). -/
 theorem source_facts : cfg.Good := by decide
 
 /-- **No lost wake-up, per branch.** For every state, every method call and both waits: if the call
@@ -228,6 +230,7 @@ theorem timeout_reached (k : Kind) (s0 : Sh) (pre : List Ev)
   | woken => simp [run, step, hpc, hlock (by simp [hpc]), hl, hb]
   | parked => simp [run, step, hpc, hlock (by simp [hpc]), hl, hb]
   | checking => simp [run, step, hpc, hl, hb]
+  | preparking => exact absurd hpc hinv.notPre
   | returned r => simp [hpc, PC.isReturned] at hnr
 
 /-- While the condition is false at every point of a history, the only thing the waiter can return is
@@ -264,5 +267,15 @@ def cfgDeadlineFirst : Cfg := { cfg with creditLoop := [.cancel, .deadline, .pre
 example : ¬ cfgDeadlineFirst.Good := by decide
 example : (run cfgDeadlineFirst (.credit 4) (St.init ⟨8, 0, 0, 0, none, none, []⟩) [.lock, .check true]).pc
     = .returned .timeout := by decide
+
+/-- The mutex dropped between the tests and `wait_timeout` (the loop re-locks before it parks): a
+cancel that lands in the gap notifies nobody and the waiter parks with its condition true. -/
+def cfgGap : Cfg := { cfg with reconnectAtomic := false }
+
+example : ¬ cfgGap.Good := by decide
+example :
+    let st := run cfgGap .reconnect (St.init ⟨8, 8, 0, 0, none, none, []⟩)
+      [.lock, .check false, .op (.cancel 1), .lock]
+    st.pc = .parked ∧ pred .reconnect st.sh = true := by decide
 
 end Repe.C12
